@@ -19,6 +19,7 @@ import (
 	"bufio"
 	"fmt"
 	"io"
+	"math"
 	"math/big"
 
 	"github.com/tuneinsight/lattigo/v6/core/rlwe"
@@ -295,6 +296,11 @@ func (e fixEvaluator) Halves(op0, opOut *rlwe.Ciphertext) {
 	for i := range opOut.Value {
 		e.r.MulScalar(op0.Value[i], 2, opOut.Value[i])
 	}
+}
+
+// ROUNDBITS control: digit count from a rounded logarithm
+func digitsVectorSize(q uint64, w int) int {
+	return (int(math.Round(math.Log2(float64(q)))) + w - 1) / w
 }
 
 // DEGLOOP control: the last component is never negated
